@@ -60,6 +60,19 @@ def elemsOp (op : String) (a : Array Float) : Option (List Float) :=
       let ys := (List.range n).map fun i => g a (1 + n + i)
       let ws := (List.range n).map fun i => g a (1 + 2 * n + i)
       some [wmean xs ws, wvar xs ws, wcov xs ys ws]
+  | "twiss" =>     -- sigx sigp sxp tiny -> emit beta alpha
+      let t := twissOf (g a 0) (g a 1) (g a 2) (g a 3); some [t.emit, t.beta, t.alpha]
+  | "fromtwiss" => -- beta alpha emit -> sxx sxp spp
+      let m := fromTwiss (g a 0) (g a 1) (g a 2); some [m.sxx, m.sxp, m.spp]
+  | "toxyz" =>     -- me c mec E0 mc2 v(7)
+      some (toXyz ⟨g a 0, g a 1, g a 2⟩ (g a 3) (g a 4) (vecAt a 5)).toList
+  | "fromxyz" =>
+      some (fromXyz ⟨g a 0, g a 1, g a 2⟩ (g a 3) (g a 4) (vecAt a 5)).toList
+  | "split" =>     -- kind(0 drift,1 quad,4 hcor) L res -> n, piece length
+      let e : Elem Float := match (g a 0).toUInt64.toNat with
+        | 0 => .drift (g a 1) | 1 => .quad (g a 1) 1.0 0.0 0.0 0.0 | _ => .hcor (g a 1) 1e-3
+      let ps := e.split (g a 2)
+      some [ps.length.toFloat, (ps.head?.map Elem.length).getD 0.0]
   | "moments" =>   -- n | 7n particles  ->  mean(7) cov(49)
       let n := (g a 0).toUInt64.toNat
       let ps := (List.range n).map fun i => vecAt a (1 + 7 * i)
